@@ -178,6 +178,9 @@ func (s *SSD) OnSurvey(surveyType string, payload []byte) ([]byte, bool) {
 
 	// Decode the request
 	var query lookupQuery
+	if !saneQuery(payload) {
+		return nil, false
+	}
 	if err := binary.Unmarshal(payload, &query); err != nil {
 		return nil, false
 	}
